@@ -38,6 +38,10 @@ pub enum Mut {
     AnyBits { seed: u64, n: usize },
     /// overwrite bytes at a logical offset
     Raw { logical: u64, bytes: Vec<u8> },
+    /// replace the header of packet `packet` of point cloud `cv` by a well-formed non-data packet
+    /// header (kind 0 = index: 16 bytes, reserved bytes zero; kind 2 = ignored: 4 bytes) whose
+    /// length field is `length_field`
+    PacketCraft { cv: usize, packet: usize, kind: u8, length_field: u16 },
 }
 
 #[derive(Clone, Debug, PartialEq, Serialize, Deserialize)]
@@ -340,6 +344,25 @@ pub fn apply(pristine: &[u8], map: &Decoded, plan: &Plan) -> Vec<u8> {
                 }
             }
             Mut::Raw { logical: at, bytes } => put(&mut logical, *at, bytes),
+            Mut::PacketCraft { cv, packet, kind, length_field } => {
+                if map.cvs.is_empty() {
+                    continue;
+                }
+                let c = &map.cvs[cv % map.cvs.len()];
+                if c.packets.is_empty() {
+                    continue;
+                }
+                let p = &c.packets[packet % c.packets.len()];
+                let l = length_field.to_le_bytes();
+                if *kind == 0 {
+                    let mut h = [0u8; 16];
+                    h[2] = l[0];
+                    h[3] = l[1];
+                    put(&mut logical, p.logical, &h);
+                } else {
+                    put(&mut logical, p.logical, &[2, 0, l[0], l[1]]);
+                }
+            }
             Mut::AnyBits { seed, n } => {
                 let mut r = Rng::new(*seed);
                 for _ in 0..*n {
@@ -553,7 +576,18 @@ pub fn draw_plan(r: &mut Rng, pristine: &[u8], map: &Decoded, size_targeted: boo
             },
             17 => Mut::BlobHeader { blob: r.usize_below(8), field: r.below(2) as u8, value: draw_u64(r, file_len, &anchors) },
             18 => Mut::PayloadBits { cv: r.usize_below(4), seed: r.next_u64(), n: 1 + r.usize_below(16) },
-            19 => Mut::AnyBits { seed: r.next_u64(), n: 1 + r.usize_below(8) },
+            19 => {
+                if r.chance(1, 2) {
+                    Mut::AnyBits { seed: r.next_u64(), n: 1 + r.usize_below(8) }
+                } else {
+                    Mut::PacketCraft {
+                        cv: r.usize_below(4),
+                        packet: if r.chance(2, 3) { 0 } else { r.usize_below(64) },
+                        kind: if r.chance(1, 2) { 0 } else { 2 },
+                        length_field: *r.pick(&[3u16, 7, 11, 15, 19, 0, 1, 2, 4, 0xFFFF, 0xFFFB, 0xFFFC, 31, 1023]),
+                    }
+                }
+            }
             // size-targeted plans (C09)
             20 => Mut::XmlAttr { name: "recordCount".into(), nth: r.usize_below(4), value: r.pick(&["18446744073709551615", "9223372036854775807", "4294967296", "1000000000000"]).to_string() },
             21 => Mut::XmlProtoZero { nth: r.usize_below(4), keep_first: r.chance(1, 3) },
